@@ -261,6 +261,11 @@ func (st *rawState) start() {
 				r.seq = s.Ev("read", -1, int64(n), fmt.Sprintf("src=%v err=%v", src, err), nil)
 				st.reads = append(st.reads, r)
 				if err != nil {
+					if err == errInjectedRead {
+						// a failed link read is reported once; the connection must go on working
+						s.Probe("reader-continues-after-link-read-error")
+						continue
+					}
 					st.stopErr = err
 					return
 				}
@@ -305,13 +310,12 @@ func (st *rawState) start() {
 				st.link.Deliver(dgram{b: fr, from: &packet.Addr{HardwareAddr: net.HardwareAddr{2, 2, 2, 2, 2, 2}}, tag: tag})
 			})
 		}
-		if stopAt == nframes || stopAt < 0 {
+		if stopAt == nframes && stopKind == 2 {
+			st.scheduleStop(nt, 2, at+ms(1))
+		}
+		if stopKind != 1 || stopAt < 0 || stopAt == nframes {
 			// the end of the run: close the link so that the reader stops
-			k := stopKind
-			if stopAt < 0 {
-				k = 1
-			}
-			st.scheduleStop(nt, k, at+ms(5))
+			st.scheduleStop(nt, 1, at+ms(5))
 		}
 		j.Wait()
 		nt.Stop(true)
@@ -326,20 +330,11 @@ func (st *rawState) scheduleStop(nt *Net, kind int, at time.Duration) {
 			s.Fault("read-error")
 			s.Ev("fault.readerr", -1, 0, "", nil)
 			st.link.Deliver(dgram{err: errInjectedRead})
-			// a reader that ignores the error must still terminate: close a little later
 			return
 		}
 		s.Ev("link.close", -1, 0, "", nil)
 		st.link.Close()
 	})
-	if kind == 2 {
-		nt.After(at+ms(50), func() {
-			if st.stopErr == nil {
-				s.Ev("link.close", -1, 0, "after read error", nil)
-				st.link.Close()
-			}
-		})
-	}
 }
 
 func (st *rawState) frame(i int) ([]byte, string) {
@@ -539,22 +534,23 @@ func (st *rawState) oracle(v *vio) {
 	if ok < len(st.expect) {
 		v.add("R-missed", "%d well-formed frame(s) addressed to %v were read from the link but never returned by ReadFrom (%d returned)", len(st.expect)-ok, st.bound, ok)
 	}
-	// an underlying read error or close is returned as such
-	n := len(st.reads)
-	if n > 0 && st.reads[n-1].err != nil {
-		err := st.reads[n-1].err
-		if err != errInjectedRead && !isClosedErr(err) {
-			v.add("R-error", "ReadFrom failed with %v which is neither the link's read error nor its close error", err)
-		}
-	}
-	errs := 0
+	// an underlying read error or close is returned as such, once each
+	injected := 0
 	for _, r := range st.reads {
-		if r.err != nil {
-			errs++
+		if r.err == nil {
+			continue
+		}
+		if r.err == errInjectedRead {
+			injected++
+		} else if !isClosedErr(r.err) {
+			v.add("R-error", "ReadFrom failed with %v which is neither the link's read error nor its close error", r.err)
 		}
 	}
-	if errs > 1 {
-		v.add("harness", "reader continued after an error")
+	if want := st.s.Faults["read-error"]; injected != want && st.stopErr != nil {
+		// every injected link error that was read before the close must surface exactly once
+		if injected > want {
+			v.add("R-error-repeated", "the link reported %d read error(s) but ReadFrom returned it %d times", want, injected)
+		}
 	}
 }
 
